@@ -1474,6 +1474,7 @@ func main() {
 			emitBd(c, "ex-people", &bdRes{global: mat{{1}}, people: []mat{{{1}}, {{0}}}, names: []string{"dev", ""}, pm: m, tick: 1, samp: 1, gran: 1})
 		})
 	}
+	scaleFamily(c, g)
 	finalized(c, c.Count(150, 3000))
 	for i := c.Count(10000, 60000); i > 0; i-- {
 		emitBd(c, "bd", g.burndown(false))
